@@ -101,7 +101,8 @@ def check_a(ck, repo):
                                 k = _kind(c.left, env)
                                 ck.verdict(k == S, "C14.a", fi, s, "stop-word membership is tested on plain string tokens", f"`{src_of(c.left)} in {sw}` is evaluated on elements of kind {k}: stop words are strings, so no token ever matches and nothing is filtered")
                     if any(src_of(c.comparators[0]) == sw for cond in g.ifs for c in ast.walk(cond) if isinstance(c, ast.Compare)):
-                        okc = len(g.ifs) == 1 and src_of(g.ifs[0]) == f"{var} not in {sw}" and src_of(v.elt) in (var, f"({var},)")
+                        wrap = norm.dump(v.elt, rename=False) in (norm.dump(ast.parse(f"({var},) if isinstance({var}, str) else {var}", mode="eval").body, rename=False), norm.dump(ast.parse(f"{var} if not isinstance({var}, str) else ({var},)", mode="eval").body, rename=False))
+                        okc = len(g.ifs) == 1 and src_of(g.ifs[0]) == f"{var} not in {sw}" and (src_of(v.elt) in (var, f"({var},)") or wrap)
                         ck.verdict(okc, "C14.a", fi, f"filter [{src_of(v.elt)} for {var} in .. if {src_of(g.ifs[0])}]", "tokens are kept iff they are not stop words, unchanged", "the stop-word filter keeps/drops tokens by another condition than `token not in stop_words`, or alters them")
                     elem[tgt] = _kind(v.elt, env)
                 elif isinstance(v, ast.List) and not v.elts:
@@ -373,8 +374,10 @@ def check_c(ck, repo):
         if m is None:
             ck.violated("C14.c", None, f"{cname}._word_ngrams", f"{cname} does not define _word_ngrams: {base} precedes NGramsMixin in the MRO, so scikit-learn's string n-grams are used and vocabulary_ keys are not token tuples", file=ci.module.relpath, function=cname, line=ci.node.lineno)
             continue
-        r = [x.value for x in own_nodes(m.node) if isinstance(x, ast.Return)]
-        ok = len(r) == 1 and isinstance(r[0], ast.Call) and src_of(r[0].func) == "NGramsMixin._word_ngrams"
+        # by path evaluation: a result held in a local before being returned is the same delegation
+        ps_ = [p for p in paths(m) if p.ret != RAISE]
+        r = [p.ret for p in ps_ if isinstance(p.ret, ast.AST)]
+        ok = len(ps_) == 1 and len(r) == 1 and not ps_[0].conds and isinstance(r[0], ast.Call) and src_of(r[0].func) == "NGramsMixin._word_ngrams"
         if ok:
             c = r[0]
             a0 = src_of(c.args[0]) if c.args else None
